@@ -25,6 +25,9 @@ CONSTANTS
   WriteErrKeepsEntry = TRUE
   AllowFire = FALSE
   FireRegisters = FALSE
+  RFault = FALSE
+  ReadErrEndsCalls = FALSE
+  LoopSurvivesClose = FALSE
   MaxTry = 1
 INVARIANTS IdReusable
 CHECK_DEADLOCK FALSE
